@@ -4,6 +4,7 @@ mod partial;
 mod plan;
 mod pool;
 mod prepack;
+mod realops;
 mod requests;
 mod synth;
 
@@ -12,6 +13,7 @@ fn main() {
     match cmd.as_str() {
         "exec" => exec::main_exec(),
         "exec-prepack" => prepack::main_prepack(),
+        "exec-realops" => realops::main_realops(),
         "partial" => partial::main_partial(),
         "partial-random" => partial::main_partial_random(),
         "plan" => plan::main_plan(),
